@@ -29,7 +29,17 @@ MIN_NONVACUOUS = {'quick': {'split.value_is_sum_of_intervals': 200, 'split.rows_
 
 def gen_case(rng):
     cls = gen.pick(rng, ['uncoupled', 'uncoupled', 'storage', 'storage', 'general'])
-    g = gen.gen_grid(rng, freqs=['h', 'h', '2h', '30min', '4h'], steps=(14, 60), hour_offsets=(0, 6, 6, 18, 3))
+    long_h = rng.random() < 0.2
+    if long_h:
+        # long horizons for calendar-anchored interval sizes (weeks, months), starting on or off the anchor
+        g = gen.gen_grid(rng, freqs=['4h', 'd', 'd'], steps=(40, 60), hour_offsets=(0, 0, 12))
+        if g['freq'] == 'd':
+            g = gen.gen_grid(rng, freqs=['d'], steps=(14, 14), hour_offsets=(0,))
+            g['end'] = str(pd.Timestamp(g['start']) + pd.Timedelta(days=int(rng.integers(12, 50))))
+            if not gen.local_ok(g['end'], g['tz']):
+                long_h = False
+    if not long_h:
+        g = gen.gen_grid(rng, freqs=['h', 'h', '2h', '30min', '4h'], steps=(14, 60), hour_offsets=(0, 6, 6, 18, 3))
     if cls == 'uncoupled':
         spec = gen.gen_lp_portfolio(rng, g=g, types=('contract', 'transport', 'multi'), n_assets=(2, 5), n_nodes=(1, 3))
         for a in spec['assets']:
@@ -46,7 +56,7 @@ def gen_case(rng):
     for a in spec['assets']:
         if 'wacc' in a and a['type'] != 'ScaledAsset' and not a.get('freq') and not a.get('periodicity') and rng.random() < 0.5:
             a['wacc'] = gen.pick(rng, [0.05, 0.2, 0.5])
-    size = gen.pick(rng, ['6h', '8h', '12h', 'd', 'd', '2d'])
+    size = gen.pick(rng, ['6h', '8h', '12h', 'd', 'd', '2d']) if not long_h else gen.pick(rng, ['W', 'W', 'W-MON', '7d', 'MS', '3d'])
     return gen.strip_private(spec), cls, size
 
 
